@@ -143,6 +143,28 @@ def _unstr(t, params):
     return tuple(_unstr(x, params) for x in t)
 
 
+_RESULT_DEFAULTS = None
+
+
+def _result_defaults():
+    """constant defaults of the fields of the NamedTuple CombinatorResult (depccg/types.py): {field: term}"""
+    global _RESULT_DEFAULTS
+    if _RESULT_DEFAULTS is None:
+        _RESULT_DEFAULTS = {}
+        try:
+            import ast as _ast
+            from .core import Repo
+            tm = Repo().module('depccg/types.py')
+            for c_ in tm.tree.body:
+                if isinstance(c_, _ast.ClassDef) and c_.name == 'CombinatorResult':
+                    for s_ in c_.body:
+                        if isinstance(s_, _ast.AnnAssign) and isinstance(s_.target, _ast.Name) and isinstance(s_.value, _ast.Constant):
+                            _RESULT_DEFAULTS[s_.target.id] = C(s_.value.value)
+        except Exception:
+            pass
+    return _RESULT_DEFAULTS
+
+
 def outcomes(fn):
     outs = []
     params_ = [a.arg for a in fn.args.args]
@@ -166,6 +188,8 @@ def outcomes(fn):
                     rec[name] = a
                 for k, v in r[3]:
                     rec[k] = v
+                for k_, v_ in _result_defaults().items():
+                    rec.setdefault(k_, v_)          # a field the record type gives a default for (head_is_left: bool = True)
                 if set(rec) != {'cat', 'op_string', 'op_symbol', 'head_is_left'}:
                     raise AnalysisError('%s:%s CombinatorResult with fields %s' % (fn.name, getattr(node, 'lineno', '?'), sorted(rec)))
                 for cs2, cat in _expand_ifexp(cs, rec['cat']):
